@@ -215,6 +215,55 @@ func ruleTreeParent(c *Ctx) []Obligation {
 				}
 			}
 		}
+		// child made by a constructor helper that is handed the owner: every entry the helper returns is a literal
+		// whose Parent is one of its parameters, and the argument in that position is the owner
+		if !found {
+			if call, isC := l.val.(*ssa.Call); isC {
+				if cal := call.Call.StaticCallee(); cal != nil && c.isRepoFn(cal) && cal.Blocks != nil {
+					okAll, n := true, 0
+					for _, b := range cal.Blocks {
+						r, isR := b.Instrs[len(b.Instrs)-1].(*ssa.Return)
+						if !isR || b == cal.Recover || len(r.Results) != 1 {
+							continue
+						}
+						n++
+						a, isA := r.Results[0].(*ssa.Alloc)
+						if !isA {
+							okAll = false
+							continue
+						}
+						set := false
+						for _, ref := range *a.Referrers() {
+							fa, isFA := ref.(*ssa.FieldAddr)
+							if !isFA {
+								continue
+							}
+							if _, f, _ := fieldOf(fa); f != m.fParent {
+								continue
+							}
+							for _, rr := range *fa.Referrers() {
+								st, isS := rr.(*ssa.Store)
+								if !isS {
+									continue
+								}
+								if p, isP := st.Val.(*ssa.Parameter); isP {
+									if idx := paramIndex(cal, p); idx >= 0 && idx < len(call.Call.Args) && sameObject(call.Call.Args[idx], l.owner) {
+										set = true
+									}
+								}
+							}
+						}
+						if !set {
+							okAll = false
+						}
+					}
+					if okAll && n > 0 {
+						found = true
+						witness = "made by " + c.FnName(cal) + ", whose literal takes Parent from the owner argument"
+					}
+				}
+			}
+		}
 		// helper building an rpc body for an owner passed in: the RPCEntry is fresh and returned, the
 		// child's Parent is the entry parameter, and every caller stores the result into that entry's RPC
 		if !found && (l.kind == "RPC.Input" || l.kind == "RPC.Output") {
